@@ -43,11 +43,20 @@ theorem compile_append (a b : List Cfg) : compile (a ++ b) = (compile b).apply (
 /-- last option of the list that sets the field `f` -/
 def lastSet {α : Type} (f : Cfg → Option α) (opts : List Cfg) : Option α := opts.reverse.findSome? f
 
-theorem lastSet_snoc {α : Type} (f : Cfg → Option α) (opts : List Cfg) (o : Cfg) :
-    lastSet f (opts ++ [o]) = match f o with | some v => some v | none => lastSet f opts := by
-  simp only [lastSet, List.reverse_append, List.reverse_cons, List.reverse_nil, List.nil_append,
-    List.cons_append, List.findSome?_cons]
-  cases f o <;> rfl
+theorem lastSet_cons {α : Type} (f : Cfg → Option α) (o : Cfg) (opts : List Cfg) :
+    lastSet f (o :: opts) = match lastSet f opts with | some v => some v | none => f o := by
+  simp only [lastSet, List.reverse_cons, List.findSome?_append, List.findSome?_cons, List.findSome?_nil]
+  cases List.findSome? f opts.reverse <;> cases f o <;> rfl
+
+theorem foldl_field {α : Type} (f : Cfg → Option α)
+    (hf : ∀ o s : Cfg, f (o.apply s) = match f o with | some v => some v | none => f s)
+    (opts : List Cfg) (s : Cfg) :
+    f (opts.foldl (fun s o => o.apply s) s) = match lastSet f opts with | some v => some v | none => f s := by
+  induction opts generalizing s with
+  | nil => simp [lastSet]
+  | cons o os ih =>
+    simp only [List.foldl_cons, ih, lastSet_cons, hf]
+    cases lastSet f os <;> cases f o <;> rfl
 
 /-- **apply_merge**: the compiled configuration is the last-writer-wins merge per field — each field has
     the value of the LAST option of the list that sets it (`nil` = unset everywhere), whatever the other
@@ -59,16 +68,17 @@ theorem apply_merge (opts : List Cfg) :
     (compile opts).base = lastSet (·.base) opts ∧
     (compile opts).factory = lastSet (·.factory) opts ∧
     (compile opts).listener = lastSet (·.listener) opts := by
-  induction opts using List.reverseRecOn with
-  | nil => simp [compile, lastSet, Cfg.empty]
-  | append_singleton os o ih =>
-    obtain ⟨h1, h2, h3, h4, h5⟩ := ih
-    rw [compile_append]
-    simp only [lastSet_snoc]
-    have ho : compile [o] = o := by simp [compile, apply_empty_right]
-    rw [ho]
-    simp only [Cfg.apply, h1, h2, h3, h4, h5]
-    exact ⟨trivial, trivial, trivial, trivial, trivial⟩
+  refine ⟨?_, ?_, ?_, ?_, ?_⟩
+  · have h := foldl_field (·.capture) (fun o s => by simp only [Cfg.apply]; cases o.capture <;> rfl) opts Cfg.empty
+    unfold compile; rw [h]; cases lastSet (·.capture) opts <;> rfl
+  · have h := foldl_field (·.init) (fun o s => by simp only [Cfg.apply]; cases o.init <;> rfl) opts Cfg.empty
+    unfold compile; rw [h]; cases lastSet (·.init) opts <;> rfl
+  · have h := foldl_field (·.base) (fun o s => by simp only [Cfg.apply]; cases o.base <;> rfl) opts Cfg.empty
+    unfold compile; rw [h]; cases lastSet (·.base) opts <;> rfl
+  · have h := foldl_field (·.factory) (fun o s => by simp only [Cfg.apply]; cases o.factory <;> rfl) opts Cfg.empty
+    unfold compile; rw [h]; cases lastSet (·.factory) opts <;> rfl
+  · have h := foldl_field (·.listener) (fun o s => by simp only [Cfg.apply]; cases o.listener <;> rfl) opts Cfg.empty
+    unfold compile; rw [h]; cases lastSet (·.listener) opts <;> rfl
 
 /-- a setter call is the application of the one-setter option -/
 theorem set_eq_apply (s : Setter) (c : Cfg) : s.set c = (build [s]).apply c := by
@@ -88,10 +98,11 @@ theorem build_append (a b : List Setter) : build (a ++ b) = (build b).apply (bui
     `NewDecoder(r, C{}.A().B().C())` = `NewDecoder(r, C{}.A(), C{}.B(), C{}.C())`. -/
 theorem split_irrelevant (chunks : List (List Setter)) :
     compile (chunks.map build) = build chunks.flatten := by
-  induction chunks using List.reverseRecOn with
+  induction chunks with
   | nil => rfl
-  | append_singleton cs c ih =>
-    rw [List.map_append, compile_append, ih, List.flatten_append, build_append]
+  | cons c cs ih =>
+    have e : (c :: cs).map build = [build c] ++ cs.map build := rfl
+    rw [e, compile_append, ih, List.flatten_cons, build_append]
     simp [compile, apply_empty_right]
 
 theorem newDecoder_flatten (chunks : List (List Setter)) :
@@ -100,30 +111,30 @@ theorem newDecoder_flatten (chunks : List (List Setter)) :
 
 /-- a setter that can take an initial offset away again: a later `SetInitialTextOffset` or
     `SetCaptureTextOffsets(false)` -/
-def Setter.touchesInitial : Setter → Bool
+def touchesInitial : Setter → Bool
   | .capture v => !v
   | .initial _ => true
   | _ => false
 
 theorem build_keeps (b : List Setter) (c : Cfg) (o : Offset)
-    (hb : ∀ s ∈ b, s.touchesInitial = false) (hc : c.capture = some true) (hi : c.init = some o) :
+    (hb : ∀ s ∈ b, touchesInitial s = false) (hc : c.capture = some true) (hi : c.init = some o) :
     (b.foldl (fun c s => s.set c) c).capture = some true ∧ (b.foldl (fun c s => s.set c) c).init = some o := by
   induction b generalizing c with
   | nil => exact ⟨hc, hi⟩
   | cons s ss ih =>
     simp only [List.foldl_cons]
     have hs := hb s (by simp)
-    apply ih (fun t ht => hb t (by simp [ht]))
-    · cases s <;> simp_all [Setter.set, Setter.touchesInitial]
-    · cases s <;> simp_all [Setter.set, Setter.touchesInitial]
+    apply ih _ (fun t ht => hb t (List.mem_cons_of_mem _ ht))
+    · cases s <;> simp_all [Setter.set, touchesInitial]
+    · cases s <;> simp_all [Setter.set, touchesInitial]
 
 /-- **initial_offset_survives**: once some option value calls `SetInitialTextOffset(o)`, every later
     setter in that or any later option value that is neither another `SetInitialTextOffset` nor
     `SetCaptureTextOffsets(false)` — e.g. `SetCaptureTextOffsets(true)`, listeners, base, factory — leaves
     the decoder with a text writer starting at exactly `o`. -/
 theorem initial_offset_survives (pre post : List (List Setter)) (a b : List Setter) (o : Offset)
-    (hb : ∀ s ∈ b, s.touchesInitial = false)
-    (hpost : ∀ c ∈ post, ∀ s ∈ c, s.touchesInitial = false) :
+    (hb : ∀ s ∈ b, touchesInitial s = false)
+    (hpost : ∀ c ∈ post, ∀ s ∈ c, touchesInitial s = false) :
     (newDecoder (pre ++ [a ++ [.initial o] ++ b] ++ post)).writer = some o := by
   rw [newDecoder_flatten]
   simp only [List.flatten_append, List.flatten_cons, List.flatten_nil, List.append_nil, List.append_assoc]
@@ -138,9 +149,11 @@ theorem initial_offset_survives (pre post : List (List Setter)) (a b : List Sett
   have e : build (pre.flatten ++ (a ++ (Setter.initial o :: (b ++ post.flatten)))) =
       (b ++ post.flatten).foldl (fun c s => s.set c) ((Setter.initial o).set (build (pre.flatten ++ a))) := by
     simp [build, List.foldl_append]
-  simp only [List.singleton_append] at *
-  rw [e]
-  simp [Cfg.effective, h.1, h.2]
+  have e' : pre.flatten ++ (a ++ ([Setter.initial o] ++ (b ++ post.flatten))) =
+      pre.flatten ++ (a ++ (Setter.initial o :: (b ++ post.flatten))) := rfl
+  rw [e', e]
+  simp only [Cfg.effective, h.1, h.2]
+  rfl
 
 /-- the hypotheses are satisfiable by the seeded scenario: offset first, bare capture flag and a listener
     in later options -/
@@ -155,5 +168,40 @@ theorem no_writer_without_capture (chunks : List (List Setter))
   simp [Cfg.effective, h]
 
 example : (newDecoder [[.initial ⟨7, 0, 7⟩], [.capture false]]).writer = none := by decide
+
+/-- setters never produce an initial offset without a capture flag -/
+theorem foldl_set_wf (ss : List Setter) (c : Cfg) (h : c.init ≠ none → c.capture ≠ none) :
+    (ss.foldl (fun c s => s.set c) c).init ≠ none → (ss.foldl (fun c s => s.set c) c).capture ≠ none := by
+  induction ss generalizing c with
+  | nil => exact h
+  | cons s ss ih =>
+    simp only [List.foldl_cons]
+    apply ih
+    cases s <;> simp_all [Setter.set]
+
+/-- **htmldefaults_forward_faithful** (repaired code, patch c16opts-1): re-issuing the compiled configuration
+    on the inner `html.DocumentConfig` gives the HTML document exactly the writer and base the outer
+    option list asked for. -/
+theorem htmldefaults_forward_faithful (opts : List (List Setter)) :
+    (newDecoderHtmlDefaults false opts).writer = (newDecoder opts).writer ∧
+    (newDecoderHtmlDefaults false opts).base = (newDecoder opts).base := by
+  simp only [newDecoderHtmlDefaults, newDecoder, split_irrelevant]
+  have hw := foldl_set_wf opts.flatten Cfg.empty (by simp [Cfg.empty])
+  change (build opts.flatten).init ≠ none → (build opts.flatten).capture ≠ none at hw
+  generalize build opts.flatten = c at hw
+  cases c with
+  | mk c i b f l =>
+    cases c with
+    | none =>
+      cases i with
+      | none => cases b <;> simp [htmlDefaultsForward, build, Setter.set, Cfg.effective, Cfg.empty]
+      | some o => exact absurd rfl (hw (by simp))
+    | some v => cases v <;> cases i <;> cases b <;>
+        simp [htmlDefaultsForward, build, Setter.set, Cfg.effective, Cfg.empty]
+
+/-- the unrepaired forwarding order turns capture back on: `SetInitialTextOffset(o).SetCaptureTextOffsets(false)` -/
+theorem htmldefaults_forward_fails_legacy :
+    ∃ opts, (newDecoderHtmlDefaults true opts).writer ≠ (newDecoder opts).writer :=
+  ⟨[[.initial ⟨7, 0, 7⟩, .capture false]], by decide⟩
 
 end RdfModel.C16Opts
